@@ -198,12 +198,15 @@ def show_t(t):
 class World:
     """domains for every variable of a shape; sizes are bounded symbolic choices, scalars unbounded symbolic ints"""
 
-    def __init__(self, ctx, cond, selected, N, value_eq=False, min_size=0, extra_vars=()):
+    def __init__(self, ctx, cond, selected, N, value_eq=False, min_size=0, extra_vars=(), pclass=None, wrap=None):
         self.ctx = ctx
+        self.wrap = wrap  # optional: domain list -> iterable handed to let() (e.g. a monitored one-shot generator)
         f = features(cond)
         vs = list(dict.fromkeys(list(all_vars(cond)) + [s for s in selected if s in PVARS or s == "w"] + list(extra_vars)))
         self.vars = vs
         PC, QC = (VP, VQ) if value_eq else (P, Q)
+        if pclass is not None:
+            PC = pclass
         self.pool = []
         if "kids" in f or "w" in vs:
             self.pool = [QC(ctx.fresh_int("q%d" % i)) for i in range(2)]
@@ -247,7 +250,8 @@ class World:
             typ = (VQ if isinstance(self.pool[0], VQ) else Q) if v == "w" else (VP if (self.dom[v] and isinstance(self.dom[v][0], VP)) else P)
             if v != "w" and not self.dom[v]:
                 typ = VP if any(isinstance(o, VP) for d in self.dom.values() for o in d) else P
-            self.evars[v] = let(typ, self.dom[v], name=v)
+            dom = self.dom[v] if self.wrap is None else self.wrap(v, self.dom[v])
+            self.evars[v] = let(typ, dom, name=v)
         return self.evars[v]
 
     def term(self, t):
